@@ -165,9 +165,17 @@ impl Diagnostics {
 
         // Helper function that checks whether a lint is allowed by attributes on the provided entity.
         fn is_lint_allowed_by_attributes(attributable: &(impl Attributable + ?Sized), lint: &Lint) -> bool {
-            let attributes = attributable.all_attributes().into_iter();
-            let mut allowed = attributes.filter_map(|a| a.downcast::<attributes::Allow>());
-            allowed.any(|allow| is_lint_allowed_by(allow.allowed_lints.iter(), lint))
+            attributable.all_attributes().into_iter().any(|attribute| {
+                if let Some(allow) = attribute.downcast::<attributes::Allow>() {
+                    is_lint_allowed_by(allow.allowed_lints.iter(), lint)
+                } else if let Some(unparsed) = attribute.downcast::<attributes::Unparsed>() {
+                    // Attributes are still unparsed if an error ended the compilation before they were patched (a syntax
+                    // error in another file, for instance). They apply to the lints that were reported until then.
+                    unparsed.directive == "allow" && is_lint_allowed_by(unparsed.args.iter(), lint)
+                } else {
+                    false
+                }
+            })
         }
 
         // Helper function that checks whether a span lies within another span.
